@@ -39,9 +39,13 @@ var poisonPaths = []string{
 }
 
 func drawC01(rt *rapid.T) *Case {
-	c := drawPathDoc(rt, gen.PathOpts{Funcs: true, RootOmit: true, FuncPct: 22}, true)
+	c := drawPathDoc(rt, gen.PathOpts{Funcs: true, RootOmit: true, FuncPct: 22, ReuseFuncs: true}, true)
 	if gen.Uniform(rt, "poison", 6) == 0 {
 		c.Strs = []string{poisonPaths[gen.Uniform(rt, "poisonpath", len(poisonPaths))]}
+	}
+	if gen.Uniform(rt, "shared", 7) == 0 {
+		// a document in which one container is reachable by two paths (a DAG, not a tree)
+		c.Ints = []int{1 + int(rapid.Uint32().Draw(rt, "shareseed"))}
 	}
 	return c
 }
@@ -62,7 +66,12 @@ func evalLibrary(c *Case, doc interface{}, accessor bool) retrieveResult {
 	if err != nil {
 		return retrieveResult{parseErr: err, rec: rec}
 	}
+	// the filter function "fre" re-enters the library: it calls this same parsed function on a
+	// small fixed document while the outer call is in progress (calls made inside are not logged)
+	reenterDoc := gen.MustDecode(tinyDoc, false)
+	rec.Reenter = func() { _, _ = f(reenterDoc) }
 	got, err := f(doc)
+	rec.Reenter = nil
 	return retrieveResult{got: got, err: err, rec: rec}
 }
 
@@ -99,6 +108,12 @@ func checkC01(c *Case, st *Stats) string {
 	doc := c.Document()
 	specDoc := c.Document()
 	docText := c.Doc.JSON()
+	if len(c.Ints) > 0 {
+		doc = gen.ShareSubtrees(doc, uint64(c.Ints[0]))
+		specDoc = gen.ShareSubtrees(specDoc, uint64(c.Ints[0]))
+		docText += fmt.Sprintf(" (shared subtrees, seed %d)", c.Ints[0])
+		st.Class("doc:shared-subtree")
+	}
 	Journal(c.Check, c.Path, docText, flagString(c))
 	if len(c.Strs) > 0 {
 		// a rejected Parse right before: must leave nothing behind
